@@ -2117,6 +2117,7 @@ pub fn run_oracle(prop: &str, tier: &str, seed: u64) -> Option<Report> {
         "C03" => oracle_c02(&mut rng, tier),
         "C06" => oracle_c06(&mut rng, tier),
         "C07" => oracle_c07(&mut rng, tier),
+        "C04" => oracle_c02(&mut rng, tier), // the size cases (65 537 entries under one name, late classes, > 2^16 classes)
         "C08" => oracle_c08(&mut rng, tier),
         "C13" => {
             let mut rep = Report::new();
